@@ -153,3 +153,9 @@ func (s *SendStream) VerifRecoverMutex() {
 	}
 	s.mutex.Unlock()
 }
+
+func (d *VerifDatagramQueue) SendLen() int {
+	d.q.sendMx.Lock()
+	defer d.q.sendMx.Unlock()
+	return d.q.sendQueue.Len()
+}
